@@ -32,6 +32,9 @@ pub enum Sink {
     /// the same, but the *other* invocation (which opened the output first) is killed in the middle of its first write to it:
     /// whatever it held (a lock, a temporary name) is gone with it, and a partial file may be all it left
     DashOFileWhileAnotherLiveInvocationIsKilled,
+    /// `-o FILE` spelled oddly: an upper- or mixed-case extension, a path through `lnk/..` with `lnk` a symbolic link to a directory
+    /// elsewhere. The bytes belong where the operating system resolves the name as given.
+    DashOFileOddSpelling,
     /// stdout is a regular file opened for appending that already holds a prefix (`fml compile a >> lib`, or the second command of
     /// `{ fml compile a; fml compile b; } > all`): the image must follow the prefix, and the prefix must stay
     StdoutAppendedToFile,
@@ -51,17 +54,18 @@ impl Sink {
             Sink::DashODevStdout => "-o /dev/stdout",
             Sink::DashOFileTwoScheduledInvocations => "-o FILE, two live invocations of the same command under a decided interleaving",
             Sink::StdoutAppendedToFile => "stdout>>file with a prefix",
+            Sink::DashOFileOddSpelling => "-o FILE with an oddly spelled name",
             Sink::DashOFileWhileAnotherLiveInvocationIsKilled => "-o FILE while another live invocation of the same command, which opened the file first, is killed mid-write",
         }
     }
     fn from_name(s: &str) -> Option<Sink> {
-        [Sink::StdoutFile, Sink::StdoutPipe, Sink::DashOFile, Sink::DashODir, Sink::StdinToStdout, Sink::StdoutDevFull, Sink::DashODevFull, Sink::DashOFileWhileAnotherInvocationFails, Sink::DashODevStdout, Sink::DashOFileTwoScheduledInvocations, Sink::StdoutAppendedToFile, Sink::DashOFileWhileAnotherLiveInvocationIsKilled]
+        [Sink::StdoutFile, Sink::StdoutPipe, Sink::DashOFile, Sink::DashODir, Sink::StdinToStdout, Sink::StdoutDevFull, Sink::DashODevFull, Sink::DashOFileWhileAnotherInvocationFails, Sink::DashODevStdout, Sink::DashOFileTwoScheduledInvocations, Sink::StdoutAppendedToFile, Sink::DashOFileWhileAnotherLiveInvocationIsKilled, Sink::DashOFileOddSpelling]
             .iter().find(|k| k.name() == s).cloned()
     }
     /// shim class of the fd the bytecode goes to
     fn class(&self) -> char {
         match self {
-            Sink::DashOFile | Sink::DashODir | Sink::DashODevFull | Sink::DashOFileWhileAnotherInvocationFails | Sink::DashODevStdout | Sink::DashOFileTwoScheduledInvocations | Sink::DashOFileWhileAnotherLiveInvocationIsKilled => 'f',
+            Sink::DashOFile | Sink::DashODir | Sink::DashODevFull | Sink::DashOFileWhileAnotherInvocationFails | Sink::DashODevStdout | Sink::DashOFileTwoScheduledInvocations | Sink::DashOFileWhileAnotherLiveInvocationIsKilled | Sink::DashOFileOddSpelling => 'f',
             _ => 'o',
         }
     }
@@ -146,8 +150,19 @@ pub fn run_case(case: &ProcCase, prep: &Prepared) -> Ran {
             child.stdout = Out::Pipe;
         }
         Sink::DashOFile => {
-            if case.stale > 0 { std::fs::write(dir.join("of.bc"), vec![0xEEu8; prep.reference.len() + case.stale]).unwrap(); }
+            if case.stale > 0 && case.stale % 3 == 0 {
+                // the output name is a symbolic link to an earlier, longer image kept elsewhere: it must be replaced through the link
+                std::fs::create_dir_all(dir.join("images")).unwrap();
+                std::fs::write(dir.join("images/build-1.bc"), vec![0xEEu8; prep.reference.len() + case.stale]).unwrap();
+                let _ = std::os::unix::fs::symlink("images/build-1.bc", dir.join("of.bc"));
+            } else if case.stale > 0 { std::fs::write(dir.join("of.bc"), vec![0xEEu8; prep.reference.len() + case.stale]).unwrap(); }
             args.extend([input, "-o", "of.bc"]);
+            child = Child::new(case.profile, &args);
+        }
+        Sink::DashOFileOddSpelling => {
+            std::fs::create_dir_all(dir.join("elsewhere/deep")).unwrap();
+            let _ = std::os::unix::fs::symlink("elsewhere/deep", dir.join("lnk"));
+            args.extend([input, "-o", if case.stale % 2 == 0 { "lnk/../OF.BC" } else { "OF.Bc" }]);
             child = Child::new(case.profile, &args);
         }
         Sink::DashODir => {
@@ -225,6 +240,7 @@ pub fn run_case(case: &ProcCase, prep: &Prepared) -> Ran {
     let produced = match case.sink {
         Sink::StdoutFile | Sink::StdoutPipe | Sink::StdinToStdout | Sink::DashODevStdout => Some(result.stdout.clone()),
         Sink::DashOFile | Sink::DashOFileWhileAnotherInvocationFails | Sink::DashOFileTwoScheduledInvocations | Sink::DashOFileWhileAnotherLiveInvocationIsKilled => std::fs::read(dir.join("of.bc")).ok(),
+        Sink::DashOFileOddSpelling => std::fs::read(dir.join(if case.stale % 2 == 0 { "lnk/../OF.BC" } else { "OF.Bc" })).ok(),
         Sink::StdoutAppendedToFile => std::fs::read(dir.join("lib.bc")).ok().map(|b| if b.starts_with(APPEND_PREFIX) { b[APPEND_PREFIX.len()..].to_vec() } else { let mut x = b"<the prefix that was in the file is gone> ".to_vec(); x.extend_from_slice(&b); x }),
         Sink::DashODir => {
             // the derived name is the tool's business: exactly one file of the directory must be new or changed
@@ -365,6 +381,7 @@ fn exercise(spec: &ProgSpec, rng: &mut Rng, per_program_random: usize) -> Out1 {
     for s in [Sink::StdoutFile, Sink::StdoutPipe, Sink::DashOFile, Sink::DashODir, Sink::StdinToStdout, Sink::DashODevStdout, Sink::DashOFileWhileAnotherInvocationFails, Sink::StdoutAppendedToFile] {
         cases.push(mk(s, String::new()));
     }
+    for k in 0..2 { let mut c = mk(Sink::DashOFileOddSpelling, String::new()); c.stale = k; cases.push(c); }
     // two live invocations of the same command: two decided interleavings per program
     for _ in 0..2 {
         let mut c = mk(Sink::DashOFileTwoScheduledInvocations, String::new());
@@ -404,7 +421,9 @@ fn exercise(spec: &ProgSpec, rng: &mut Rng, per_program_random: usize) -> Out1 {
         let plan = match rng.below(8) {
             // a one-off error (EAGAIN on a non-blocking pipe, ETIMEDOUT, a passing EIO), alone or while a request is being taken piecewise
             6 => format!("{}:{}:y:{}", cls, rng.below(4), rng.pick(&[11u32, 11, 110, 5])),
-            7 => format!("{c}:*:l:{k};{c}:{j}:y:{e}", c = cls, k = rng.pick(&[1u32, 3, 64, 1024, 4096]), j = 1 + rng.below(40), e = rng.pick(&[11u32, 11, 110, 5])),
+            7 => if rng.coin() { format!("{c}:*:l:{k};{c}:{j}:y:{e}", c = cls, k = rng.pick(&[1u32, 3, 64, 1024, 4096]), j = 1 + rng.below(40), e = rng.pick(&[11u32, 11, 110, 5])) }
+                 // a filling disk: one call is accepted in part, the next one fails for good (ENOSPC, EFBIG, EDQUOT) — at the first calls, where small images have their only write
+                 else { let at = rng.below(3); format!("{c}:{a}:s:{n};{c}:{b}:x:{e}", c = cls, a = at, n = rng.pick(&[1u32, 10, 100, 1000, 4000]), b = at + 1, e = rng.pick(&[28u32, 27, 122])) },
             0 | 1 => format!("{}:*:l:{}", cls, rng.pick(&[1u32, 2, 3, 7, 64, 1023, 1024, 1025, 4096])),
             2 => format!("{}:{}:s:{}", cls, rng.below(4), 1 + rng.below(5)),
             3 => format!("{}:{}:e:0", cls, rng.below(4)),
